@@ -238,8 +238,12 @@ bool Plan::EdgeFinished(Edge* edge, EdgeResult result, string* err) {
 
 bool Plan::NodeFinished(Node* node, string* err) {
   // See if we we want any edges from this node.
-  for (vector<Edge*>::const_iterator oe = node->out_edges().begin();
-       oe != node->out_edges().end(); ++oe) {
+  // Iterate over a copy: finishing an edge below may load a dyndep file that
+  // adds this node as an input of further edges (appending to out_edges()).
+  // Those edges are examined by the dyndep load itself.
+  const vector<Edge*> out_edges = node->out_edges();
+  for (vector<Edge*>::const_iterator oe = out_edges.begin();
+       oe != out_edges.end(); ++oe) {
     map<Edge*, Want>::iterator want_e = want_.find(*oe);
     if (want_e == want_.end())
       continue;
